@@ -141,6 +141,10 @@ func Run(bin string, c Cmd) Result {
 			break
 		}
 	}
+	// a panic inside a String / Error method is recovered by fmt and printed in place of the value
+	if bytes.Contains(r.Stdout, []byte("(PANIC=")) || bytes.Contains(r.Stderr, []byte("(PANIC=")) {
+		r.Panic = true
+	}
 	return r
 }
 
